@@ -1,5 +1,9 @@
 /-
-C15 witnesses — the full statements are false of the current code.
+C15 witnesses — the full statements are still false of the code with fixes C15-1/2/3 applied
+(unrepaired: F9a, F9d, F9e, F9f, F9g, F9h, F9i `two_adic_generator` part). The shapes of the
+repaired findings F9b, F9c, F9i (overflow part) and F9o are kept as regression facts: the model
+now says `.err` for them; `*_record` theorems keep the pre-fix steps they used to fail as a
+record only.
 
 Every theorem here evaluates the model (`P3R.Shape.verifyUni`) on a concrete shape vector that
 differs from an honest one by ONE structural alteration; each is the shape of a corpus witness
@@ -22,17 +26,66 @@ def e0 := envFib 0
 compares it with the opened data (corpus f9a_*). -/
 theorem degree_bits_panics :
     verifyUni e0 { fib with degreeBits := 64 } = .panic ∧
-    verifyUni e0 { fib with degreeBits := 28 } = .panic ∧
-    verifyUni e0 { fib with degreeBits := 4 } = .panic := by decide
+    verifyUni e0 { fib with degreeBits := 28 } = .panic := by decide
 
-/-- F9b: one PoW witness fewer — the challenge loop zips (truncates), `verify_circuit` then
-slices `challenges[1..1+commits]` (corpus f9b). -/
-theorem pow_witnesses_short_panics :
-    verifyUni e0 { fib with fri := { fib.fri with powWitnesses := 2 } } = .panic := by decide
+/-- Record only: the two steps of `friVerifyChecks` as they were before fix C15-1 (unchecked
+slice `challenges[1..1+commits]`, unchecked `+`), and the step of `openInputChecks` before fix
+C15-3 (unchecked `log_global_max_height - height`). Not part of the model any more. -/
+def preFixSliceSteps (e : Env) (f : FriShape) : List Check :=
+  [ partialStep (f.commitCaps.length ≤ f.powWitnesses),
+    partialStep (logMaxHeight e f < 2 ^ e.wordBits) ]
 
-/-- F9c: one commit-phase commitment more — same slice (corpus f9c). -/
-theorem commit_extra_panics :
-    verifyUni e0 { fib with fri := { fib.fri with commitCaps := [1, 1, 1, 1] } } = .panic := by decide
+def preFixHeightSteps (e : Env) (f : FriShape) (rounds : List Round) : List Check :=
+  rounds.flatMap fun r => r.mats.map fun m => partialStep (m.1 + e.logBlowup ≤ logMaxHeight e f)
+
+/-- F9b repaired (fix C15-1): one PoW witness fewer is rejected with an error (corpus f9b, now a
+regression case). Record: the pre-fix slice step failed on this shape. -/
+theorem pow_witnesses_short_rejected :
+    verifyUni e0 { fib with fri := { fib.fri with powWitnesses := 2 } } = .err := by decide
+
+theorem pow_witnesses_short_record :
+    run (preFixSliceSteps e0 { fib.fri with powWitnesses := 2 }) = .panic := by decide
+
+/-- F9c repaired (fix C15-1): one commit-phase commitment more is rejected (corpus f9c). -/
+theorem commit_extra_rejected :
+    verifyUni e0 { fib with fri := { fib.fri with commitCaps := [1, 1, 1, 1] } } = .err := by decide
+
+theorem commit_extra_record :
+    run (preFixSliceSteps e0 { fib.fri with commitCaps := [1, 1, 1, 1] }) = .panic := by decide
+
+/-- F9i overflow part repaired (fix C15-1): `log_final_poly_len = usize::MAX` is rejected (corpus
+f9i_log_final_poly_len_max). -/
+theorem log_final_poly_len_max_rejected :
+    verifyUni { e0 with logFinalPolyLen := 2 ^ 64 - 1 } fib = .err := by decide
+
+/-- F9o repaired (fix C15-3): a self-consistent folding schedule that is too short for the
+committed matrices is rejected. `shortSchedule0` is the corpus shape f9o (first `log_arity` set to
+0 in the only remaining query; the tree now also rejects it earlier, by `1 ≤ log_arity`);
+`shortSchedule` drops one whole phase consistently, so that only the height comparison of fix
+C15-3 stands between it and the subtraction. -/
+def shortSchedule0 : UniShape :=
+  { fib with fri := { fib.fri with queries := [{ honestQuery with steps := [0, 1, 1] }] } }
+
+def shortSchedule : UniShape :=
+  { fib with fri :=
+      { commitCaps := [1, 1], powWitnesses := 2, finalPolyLen := 1,
+        queries := [{ inputProof := [[2], [4]], steps := [1, 1] },
+                    { inputProof := [[2], [4]], steps := [1, 1] }] } }
+
+theorem schedule_too_short_rejected :
+    verifyUni e0 shortSchedule0 = .err ∧ verifyUni e0 shortSchedule = .err := by decide
+
+/-- F9a, "one above the real degree" part, repaired by fix C15-3: the domain is then taller than
+the folding schedule reaches, which is the same height comparison (corpus f9a_degree_bits_plus1,
+now a regression case). The shift / two-adicity parts of F9a (`degree_bits_panics`) remain. -/
+theorem degree_bits_plus1_rejected : verifyUni e0 { fib with degreeBits := 4 } = .err := by decide
+
+theorem degree_bits_plus1_record :
+    run (preFixHeightSteps e0 fib.fri (uniRounds e0 { fib with degreeBits := 4 })) = .panic := by
+  decide
+
+theorem schedule_too_short_record :
+    run (preFixHeightSteps e0 shortSchedule.fri (uniRounds e0 shortSchedule)) = .panic := by decide
 
 /-- F9d: `log_arity` is shifted / multiplied / used as an allocation size while the targets are
 allocated (corpus f9d_*: 255 overflows the shift, 28 asks for 2^30 targets). -/
@@ -56,6 +109,13 @@ theorem prep_short_panics :
 
 /-- F9i: an out-of-range `log_blowup` parameter reaches `two_adic_generator` (corpus f9i). -/
 theorem log_blowup_panics : verifyUni { e0 with logBlowup := 28 } fib = .panic := by decide
+
+/-- F9p: a commitment round whose LDE height is below the cap height — `open_input` passes only
+the upper `batchHeight` index bits, `verify_batch_circuit` subtracts the cap height from their
+number (corpus f9p: `degree_bits = 0`, `log_blowup = 0`, caps of 2 roots). -/
+theorem domain_below_cap_panics :
+    verifyUni { envFib 1 with logBlowup := 0 } { honestFib 2 with degreeBits := 0 } = .panic := by
+  decide
 
 /-- F9g: a proof with one of the two FRI queries dropped is accepted — the builder has no
 `num_queries` parameter, so it emits a circuit with fewer queries (corpus f9g). -/
@@ -84,12 +144,14 @@ theorem malformed_rejected_full_false :
   rw [query_dropped_accepted.1] at this
   exact absurd this (by decide)
 
-/-- Every panic witness falsifies the hypothesis of `uni_no_panic_partial`, the accepted ones
-do not (they are outside what validation covers, not panics). -/
+/-- Every remaining panic witness falsifies the hypothesis of `uni_no_panic_partial`; the accepted
+ones do not (they are outside what validation covers, not panics), and neither do the shapes of
+the repaired findings (they are plain errors now). -/
 theorem witnesses_falsify_guards :
     PanicGuards e0 { fib with degreeBits := 64 } = false ∧
-    PanicGuards e0 { fib with fri := { fib.fri with powWitnesses := 2 } } = false ∧
-    PanicGuards e0 { fib with fri := { fib.fri with commitCaps := [1, 1, 1, 1] } } = false ∧
+    PanicGuards e0 { fib with fri := { fib.fri with powWitnesses := 2 } } = true ∧
+    PanicGuards e0 { fib with fri := { fib.fri with commitCaps := [1, 1, 1, 1] } } = true ∧
+    PanicGuards e0 shortSchedule = true ∧
     PanicGuards e0 { fib with traceCap := 0 } = false ∧
     PanicGuards (envFib 1) { honestFib 2 with traceCap := 3 } = false ∧
     PanicGuards envMul { honestMul with prepLocal := some 3 } = false ∧
@@ -100,8 +162,15 @@ theorem witnesses_falsify_guards :
 end P3R.Witness.C15
 
 #print axioms P3R.Witness.C15.degree_bits_panics
-#print axioms P3R.Witness.C15.pow_witnesses_short_panics
-#print axioms P3R.Witness.C15.commit_extra_panics
+#print axioms P3R.Witness.C15.pow_witnesses_short_rejected
+#print axioms P3R.Witness.C15.pow_witnesses_short_record
+#print axioms P3R.Witness.C15.commit_extra_rejected
+#print axioms P3R.Witness.C15.commit_extra_record
+#print axioms P3R.Witness.C15.log_final_poly_len_max_rejected
+#print axioms P3R.Witness.C15.schedule_too_short_rejected
+#print axioms P3R.Witness.C15.degree_bits_plus1_rejected
+#print axioms P3R.Witness.C15.degree_bits_plus1_record
+#print axioms P3R.Witness.C15.schedule_too_short_record
 #print axioms P3R.Witness.C15.log_arity_panics
 #print axioms P3R.Witness.C15.cap_empty_panics
 #print axioms P3R.Witness.C15.cap_not_pow2_panics
@@ -112,3 +181,4 @@ end P3R.Witness.C15
 #print axioms P3R.Witness.C15.no_panic_full_false
 #print axioms P3R.Witness.C15.malformed_rejected_full_false
 #print axioms P3R.Witness.C15.witnesses_falsify_guards
+#print axioms P3R.Witness.C15.domain_below_cap_panics
